@@ -393,6 +393,11 @@ class Denoter:
 
     def n_Conditional(self, e, comp, idx, ctx, side):
         c, t, f = e.ufl_operands
+        chooser = getattr(self.env, "chooser", None)
+        if chooser is not None:
+            # path-wise denotation (C24): the condition is decided at a concrete point, recorded by the chooser,
+            # and only the selected branch contributes (its divisors are the only definedness conditions)
+            return self.ev(t if chooser(self.cond(c, idx, ctx, side)) else f, comp, idx, ctx, side)
         return ring.ite(
             self.cond(c, idx, ctx, side),
             self.ev(t, comp, idx, ctx, side),
